@@ -87,6 +87,22 @@ def gen(seed, tier):
         out.append(f"squeeze {a} n")
         out.append(f"expand_dims {a} l0,-1")
         out.append(f"atleast {a} z4")
+    # rank-0 receivers (one element, empty shape): inside the property's domain they arise from squeeze(None) of an
+    # all-unit shape or reshape to [] (seeded change C07j: atleast(2) / atleast(3) returned them unchanged)
+    for k in range(5):
+        out.append(f"atleast a:7 z{k}")
+    for t in ([], [1], [1, 1], [1, 1, 1], [2], [0]):
+        out.append(f"reshape a:7 {lst(t)}")
+        out.append(f"resize a:7 {lst(t)}")
+    for ax in ([0], [-1], [0, 1], [1], [-2], [0, 0]):
+        out.append(f"expand_dims a:7 {lst(ax)}")
+    out.append("squeeze a:7 n")
+    out.append("squeeze a:7 l0")
+    out.append("ravel a:7")
+    out.append("cycle_take a:7 z3")
+    for sh in ([1], [1, 1], [1, 1, 1], [1, 1, 1, 1]):
+        out.append(f"reshape {arr(sh)} l")
+        out.append(f"squeeze {arr(sh)} n")
     out.append("resize a0: l2")
     out.append("resize a0: l0")
     out.append("cycle_take a0: z3")
